@@ -64,17 +64,18 @@ def split (length : Nat) (p : Buf) : Buf × Option Buf :=
 
 /-! ## `split_payload_extension`, `payload`, `payload_raw`, `extension` -/
 
-/-- Flip to `true` once `/repo` widens the length octet before multiplying
-(`usize::from(self.get_length()) * 4`).  Used by the driver entry `handle` only; the
-theorems are stated for both settings explicitly. -/
-def codeIsFixed : Bool := false
+/-- `true`: `/repo` widens the length octet before multiplying
+(`usize::from(self.get_length()) * 4`, repaired tree).  `false` selects the pre-repair `u8 * u8`
+multiplication, kept for the old-code witness lemmas.  Used by the driver entry `handle` only; the
+theorems name the setting explicitly. -/
+def codeIsFixed : Bool := true
 
 /-- words → octets: 32-bit words for ICMPv4, 64-bit words for ICMPv6 (`fam = true`) -/
 def unitOf (fam : Bool) : Nat := if fam then 8 else 4
 
-/-- `usize::from(self.get_length() * 4)` (v4) / `* 8` (v6).  In the code as it is today the
-multiplication is `u8 * u8` and overflows (panic in the dev profile) when the product exceeds 255;
-`fixed = true` is the widened multiplication. -/
+/-- `usize::from(self.get_length()) * 4` (v4) / `* 8` (v6) for `fixed = true` (the code today).
+`fixed = false` is the pre-repair `usize::from(self.get_length() * 4)`: a `u8 * u8` multiplication
+that overflows (panic in the dev profile) when the product exceeds 255. -/
 def scaleLen (fixed : Bool) (fam : Bool) (l : UInt8) : R Nat :=
   if fixed then .ok (l.toNat * unitOf fam)
   else if l.toNat * unitOf fam > 255 then .panic
@@ -97,11 +98,11 @@ def splitPayloadExtensionWith (fixed : Bool) (fam : Bool) (icmp : Buf) : R (Buf 
   let body ← payloadRaw icmp
   pure (split length body)
 
-/-- the code as it is today -/
+/-- the pre-repair code (`u8` multiplication); kept for the old-code witness lemmas only -/
 def splitPayloadExtension (fam : Bool) (icmp : Buf) : R (Buf × Option Buf) :=
   splitPayloadExtensionWith false fam icmp
 
-/-- the code with the widened multiplication -/
+/-- the code as it is today (widened multiplication) -/
 def splitPayloadExtensionFixed (fam : Bool) (icmp : Buf) : R (Buf × Option Buf) :=
   splitPayloadExtensionWith true fam icmp
 
@@ -139,11 +140,14 @@ def objLength (obj : Buf) : R Nat := do
   let b ← rd obj 1
   pure (a.toNat * 256 + b.toNat)
 
-/-- `ExtensionObjectPacket::payload`: `&buf[4..length]`, panics when `4 > length` or
-`length > buf.len()`. -/
+/-- `ExtensionObjectPacket::payload`:
+`let end = usize::from(get_length()).clamp(4, buf.len()); &buf[4..end]`.
+On a view of at least 4 octets (which `new_view` guarantees) this never panics; on a shorter
+buffer `get_length` reads out of range or `clamp` asserts `min <= max`. -/
 def objPayload (obj : Buf) : R Buf := do
   let len ← objLength obj
-  if 4 ≤ len ∧ len ≤ obj.length then pure ((obj.take len).drop 4) else .panic
+  if obj.length < 4 then .panic
+  else pure ((obj.take (max 4 (min len obj.length))).drop 4)
 
 /-! ## `MplsLabelStackIter` and the member getters -/
 
@@ -183,7 +187,7 @@ def memberOf (m : Buf) : R MplsMember := do
 
 /-! ## `Extensions::try_from(&[u8])` -/
 
-/-- `.map(f).collect::<Result<Vec<_>, _>>()`: left to right, the first `Err` (or panic) ends it -/
+/-- `.map(f).collect()`: left to right; the first outcome that is not a normal return ends it -/
 def mapR {α β : Type} (f : α → R β) : List α → R (List β)
   | [] => .ok []
   | x :: xs => do
@@ -206,8 +210,8 @@ def objectOf (obj : Buf) : R Extension := do
   let c ← rd obj 2
   if c.toNat = 1 then
     let p ← objPayload obj
-    -- `MplsLabelStackPacket::new_view(obj.payload())`
-    if p.length < 4 then .err .pktShort
+    -- `MplsLabelStackPacket::new_view(obj.payload()).map(MplsLabelStack::from).unwrap_or_default()`
+    if p.length < 4 then pure (.mpls [])
     else
       let ms ← mplsOf p
       pure (.mpls ms)
@@ -223,7 +227,7 @@ def extensionsTryFrom (ext : Buf) : R (List Extension) :=
     let v ← headerVersion (ext.take 4)                 -- `value.header()` = `&buf[..4]`
     if v ≠ 2 then pure []
     else
-      -- `.objects().flat_map(ExtensionObjectPacket::new_view).map(..).collect::<Result<_,_>>()?`
+      -- `.objects().flat_map(ExtensionObjectPacket::new_view).map(..).collect()`
       mapR objectOf ((objects ext).filter fun o => decide (4 ≤ o.length))
 
 /-! ## what the tracer takes from a Time Exceeded / Destination Unreachable message
